@@ -374,6 +374,7 @@ public:
     for (auto *pv : F->parameters()) pts.push_back(pv->getType().getCanonicalType().getAsString());
     d["ptypes"] = std::move(pts);
     d["variadic"] = F->isVariadic();
+    d["ret"] = F->getReturnType().getCanonicalType().getAsString();
     FDecls.push_back(std::move(d));
     if (F->doesThisDeclarationHaveABody()) Functions.push_back(X.exportFunction(F));
     return true;
